@@ -284,7 +284,7 @@ def main(tier):
             raise common.Inconclusive('only %d alias macros found' % alias_ok)
     # functions of (Z, line) alone: same bits in any call order and without an error slot
     _Z, _L = np.meshgrid(np.arange(0, 122), np.arange(-390, 7), indexing='ij')
-    ncalls += execlib.independence(ck, 'c10', 'shipped', [('LineEnergy', _Z.ravel(), _L.ravel()), ('RadRate', _Z.ravel(), _L.ravel())], orders=('given', 'reversed'))
+    ncalls += execlib.independence(ck, 'c10', 'shipped', [('LineEnergy', _Z.ravel(), _L.ravel()), ('RadRate', _Z.ravel(), _L.ravel())], orders=('given', 'reversed', 'each-twice'))
     cov = dict(evaluations=int(ncalls), distinct_nontrivial=int(cells),
                rule='every Z 1..120 (+6 out-of-range Z) x {KA,KB,LA,LB,KO,KP and the 7 IUPAC doublets} for LineEnergy, {KA,KB,LA,LB} for RadRate, '
                     'and every Siegbahn alias macro x Z for both functions; non-trivial = (function, macro, Z) cells in which the library '
